@@ -56,6 +56,13 @@ Theorem c21_ddl_name_within_specific_limit_guarded : forall md5_hex d is_index c
   ddl_name md5_hex d is_index convention given env = Ok (Some s) -> slen s <= max_for d is_index.
 Proof. exact ddl_name_within_specific. Qed.
 Print Assumptions c21_ddl_name_within_specific_limit_guarded.
+(* the guard excludes exactly the failing names: outside it (and within max_identifier_length) the
+   name is rendered unchanged and is longer than the specific limit *)
+Theorem c21_specific_guard_exact : forall md5_hex d is_index convention p env, dialect_ok d = true ->
+  specific_guard d is_index convention (GPlain p) = false -> slen p <= d_maxid d ->
+  ddl_name md5_hex d is_index convention (GPlain p) env = Ok (Some p) /\ max_for d is_index < slen p.
+Proof. exact specific_guard_exact. Qed.
+Print Assumptions c21_specific_guard_exact.
 Theorem c21_ddl_name_within_specific_limit_refuted : forall md5_hex,
   dialect_ok mysql_like = true /\
   exists s, ddl_name md5_hex mysql_like true None (GPlain (repeat 105%N 100)) env0 = Ok (Some s)
